@@ -644,6 +644,8 @@ def correspondence(ctx: core.Ctx) -> None:
     for _ in range(n):
         spec = c09_gen.generate(ctx.rng)
         run_project(ctx, spec, "gen")
+    for _ in range(ctx.budget(8, 200)):
+        run_project(ctx, c09_gen.generate_ignored_dir(ctx.rng), "gen-ignored-dir")
 
 
 def _merge(ctx: core.Ctx, sub: core.Ctx) -> None:
@@ -666,15 +668,43 @@ def search(ctx: core.Ctx) -> None:
         return any(v.key not in known for v in ctx.violations)
 
     seen = 0
-    for d in list(ctx.disagreements):
+    base = list(ctx.disagreements)
+    for d in base:
         spec = d["input"].get("spec") if isinstance(d["input"], dict) and "spec" in d["input"] else d["input"]
         if isinstance(spec, dict) and "files" in spec and seen < 30:
             seen += 1
             run_project(ctx, spec, "search")
             if found():
                 return
-    for _ in range(ctx.budget(150, 600)):
-        run_project(ctx, c09_gen.generate(ctx.rng), "search")
+    # the disagreeing projects again with an explicit include aimed at the paths on which model and code differed (a listing
+    # that differs matters to the property only when some rule picks the path up again)
+    import copy
+    tried = 0
+    for d in base:
+        spec = d["input"].get("spec") if isinstance(d["input"], dict) and "spec" in d["input"] else d["input"]
+        a, b = d.get("impl"), d.get("model")
+        if not (isinstance(spec, dict) and "files" in spec and isinstance(a, list) and isinstance(b, list)):
+            continue
+        diff = {str(x) for x in a} ^ {str(x) for x in b}
+        cand: set[str] = set()
+        for q in diff:
+            q = q.rstrip("/")
+            cand.add(q)
+            cand |= {f for f in spec["files"] if f.startswith(q + "/")}
+            if "/" in q:
+                cand.add(q.rsplit("/", 1)[0] + "/*")
+        for c in sorted(cand)[:6]:
+            for fmt in (["sdist", "wheel"], ["wheel"]):
+                if tried >= 60:
+                    break
+                tried += 1
+                v = copy.deepcopy(spec)
+                v["include"] = [*v["include"], {"path": c, "format": fmt}]
+                run_project(ctx, v, "search-aimed-include")
+                if found():
+                    return
+    for i in range(ctx.budget(150, 600)):
+        run_project(ctx, c09_gen.generate_ignored_dir(ctx.rng) if i % 2 else c09_gen.generate(ctx.rng), "search")
         if found():
             return
 
